@@ -68,6 +68,26 @@ Fixpoint read_until_eof (fuel : nat) (s : ipc_state) (sock : list bytes) : optio
 Definition read_all (sock : list bytes) : option (list bytes) :=
   read_until_eof (S (length (concat sock))) ipc_init sock.
 
+(* the loop of mypy/dmypy/client.py request(): receive frames until one is marked final
+     final = False
+     while not final:
+         response = receive(client)          # OSError("No data received") on b""
+         final = bool(response.pop("final", False))
+   [final] abstracts "the decoded JSON dict has a true `final`"; the frames before the final one are
+   the stdout/stderr frames WriteToConn sends while a command runs.  None = an exception escaped. *)
+Fixpoint read_until_final (final : bytes -> bool) (fuel : nat) (s : ipc_state) (sock : list bytes)
+  : option (list bytes) :=
+  match fuel with
+  | O => None
+  | S f => match read_bytes s sock with
+           | RaisedStructError => None
+           | Read b s' sock' =>
+               if is_empty b then None
+               else if final b then Some [b]
+               else option_map (cons b) (read_until_final final f s' sock')
+           end
+  end.
+
 (* sender side: successive write_bytes calls put this on the wire *)
 Definition wire (msgs : list bytes) : bytes := concat (map encode_frame msgs).
 
